@@ -385,3 +385,39 @@ def R11P(body, ctx):
         body = body[:s] + 'deque_position_eq(%s, &%s)' % (recv, needle) + body[k:]
         n += 1
     return body, n
+
+
+INT_TYPES = ('usize', 'u8', 'u16', 'u32', 'u64', 'u128', 'isize', 'i8', 'i16', 'i32', 'i64', 'i128')
+
+
+def R11S(body, ctx):
+    """`M.values().sum()`         -> `{ let mut sum_: T = 0; for kv_ in it_: M.iter() { sum_ += *kv_.1; } sum_ }`
+    `M.values().map(F).sum()`  -> `{ let mut sum_: T = 0; for kv_ in it_: M.iter() { sum_ += F(kv_.1); } sum_ }`
+    (F a path to a function, e.g. `VecDeque::len`; T the integer return type of the enclosing function, of
+    which the `sum()` must be the value). Trusted (A-R11): `values()` yields exactly the value components of
+    the pairs `iter()` yields ("an iterator visiting all values / all key-value pairs", same order), and
+    `Iterator::sum` adds the items up starting from zero with overflow-checked `+`. The loop exposes the
+    Verus ghost iterator as `it_`; loop invariants of the unit refer to `sum_` and `it_` (documented names)."""
+    t = (ctx.get('ret') or '').strip()
+    n = 0
+    while True:
+        mask = code_mask(body)
+        ms = _code_matches(r'\.\s*values\s*\(\s*\)\s*(?:\.\s*map\s*\(\s*((?:%s\s*::\s*)*%s)\s*\)\s*)?\.\s*sum\s*\(\s*\)' % (IDENT, IDENT), body, mask)
+        if not ms:
+            break
+        m = ms[0]
+        if t not in INT_TYPES:
+            raise LostAnchor('R11S: `.sum()` in a function whose return type `%s` is not a primitive integer' % t)
+        s = _postfix_start(body, m.start(), mask)
+        recv = body[s:m.start()].strip()
+        if not re.match(r'^%s$' % CHAIN, recv):
+            raise LostAnchor('R11S: receiver of `.values()` is not a place expression')
+        # the sum must be the value of an arm / the function: followed by `,` or `}` or end of body
+        k = _skip_ws(body, m.end())
+        if k < len(body) and body[k] not in ',}':
+            raise LostAnchor('R11S: the value of `.sum()` is used in a larger expression')
+        item = '%s(kv_.1)' % m.group(1) if m.group(1) else '*kv_.1'
+        new = '{ let mut sum_: %s = 0; for kv_ in it_: %s.iter() { sum_ += %s; } sum_ }' % (t, recv, item)
+        body = body[:s] + new + body[m.end():]
+        n += 1
+    return body, n
